@@ -10,14 +10,18 @@
 (***************************************************************************)
 EXTENDS Naturals, Integers, Sequences, FiniteSets, TLC, Json
 
-CONSTANTS MaxSubsets,    \* messages with 1..MaxSubsets subsets
-          MaxReq         \* requests of 1..MaxReq indices drawn from -1..n
+CONSTANTS MaxSubsets,    \* messages with 1..MaxSubsets subsets: every request
+          MaxReq,        \* requests of 1..MaxReq indices drawn from -1..n
+          BigCounts      \* larger subset counts: requests drawn from a pool of indices around 0, 8 (where small hash
+                         \* tables wrap), the middle and n
 
 VARIABLES n, req
 vars == <<n, req>>
 
-Init == n \in 1..MaxSubsets /\ req = <<>>
-Extend == Len(req) < MaxReq /\ \E i \in -1..n : req' = Append(req, i) /\ UNCHANGED n
+IndexPool(k) == IF k <= MaxSubsets THEN -1..k
+                ELSE {i \in {-1, 0, 1, 2, 5, 7, 8, 9, k - 2, k - 1, k} : i <= k}
+Init == n \in (1..MaxSubsets) \cup BigCounts /\ req = <<>>
+Extend == Len(req) < MaxReq /\ \E i \in IndexPool(n) : req' = Append(req, i) /\ UNCHANGED n
 Next == Extend
 
 Wanted == {req[i] : i \in 1..Len(req)}
